@@ -320,11 +320,13 @@ Proof.
   - apply apply_rule_sat; [exact Hs|]. apply Hc. now left.
 Qed.
 
-Lemma close_sat e k : consistent e -> sat e k -> sat e (close k).
+Lemma closeN_sat e n : consistent e -> forall k, sat e k -> sat e (closeN n k).
 Proof.
-  intros Hc. unfold close. generalize (List.length rules). intros n. revert k.
-  induction n as [|n IH]; intros k Hs; cbn [closeN]; [exact Hs|]. apply IH. now apply close1_sat.
+  intros Hc k Hs. induction n as [|n IH]; [exact Hs|].
+  exact (close1_sat e (closeN n k) Hc IH).
 Qed.
+Lemma close_sat e k : consistent e -> sat e k -> sat e (close k).
+Proof. intros Hc Hs. exact (closeN_sat e _ Hc k Hs). Qed.
 
 Lemma implied_sound e k ft : sat e k -> implied k ft = true -> in_baseline ft || availb e ft = true.
 Proof.
@@ -495,8 +497,8 @@ Lemma bound_okb_spec tbl e r :
   bound_okb (requires_of tbl) e r = true <-> exists x, r = Some x /\ executable tbl e x.
 Proof.
   unfold bound_okb, executable. split.
-  - destruct r as [x|]; [|discriminate]. destruct (requires_of tbl x) as [l|]; [|discriminate].
-    intros H. exists x. split; [reflexivity|]. exists l. split; [reflexivity|].
+  - destruct r as [x|]; [|discriminate]. destruct (requires_of tbl x) as [l|] eqn:E; [|discriminate].
+    intros H. exists x. split; [reflexivity|]. exists l. split; [exact E|].
     rewrite forallb_forall in H. intros ft Hin. specialize (H _ Hin). apply orb_true_iff in H.
     destruct H as [H|H]; [left; now apply in_baseline_In|right; now apply availb_avail].
   - intros [x [-> [l [-> H]]]]. rewrite forallb_forall. intros ft Hin. apply orb_true_iff.
@@ -528,3 +530,55 @@ Proof.
   destruct H as [Hc Hm]. apply doc_min_okb_spec in Hm. specialize (Hs e Hc Hm).
   apply bound_okb_spec in Hs. rewrite Hs in Hb. discriminate.
 Qed.
+
+(* ------------------------------------------------------------------ safe or refuted *)
+
+Section Partition.
+  Variable tbl : list (string * list feat).
+  Variable ds : list dispatcher.
+  Hypothesis W : forallb (has_witness tbl) (unsafe_of tbl ds) = true.
+
+  Definition refuted (d : dispatcher) : Prop :=
+    exists e, consistent e /\ doc_min_ok (d_entry d) e /\
+              ~ (exists x, exec (d_entry d) (d_code d) e = Some x /\ executable tbl e x).
+
+  Theorem unsafe_refuted_gen : forall d, In d (unsafe_of tbl ds) -> refuted d.
+  Proof.
+    intros d Hin. rewrite forallb_forall in W. specialize (W d Hin). unfold has_witness in W.
+    destruct (counterexample tbl d) as [e|] eqn:E; [|discriminate W].
+    unfold counterexample in E. apply find_some in E. destruct E as [_ E].
+    exists e. unfold refutes in E. apply andb_prop in E. destruct E as [E Hb]. apply andb_prop in E.
+    destruct E as [Hc Hm]. split; [exact Hc|]. split; [exact (proj1 (doc_min_okb_spec _ _) Hm)|].
+    intros Hx. apply bound_okb_spec in Hx. rewrite Hx in Hb. discriminate Hb.
+  Qed.
+
+  Theorem safe_or_refuted_gen : forall d, In d ds ->
+    safe tbl d \/ (In d (unsafe_of tbl ds) /\ refuted d).
+  Proof.
+    intros d Hin. destruct (check_disp tbl d) eqn:E.
+    - left. exact (check_disp_safe tbl d E).
+    - right. assert (Hu : In d (unsafe_of tbl ds)).
+      { unfold unsafe_of. apply (proj2 (filter_In _ d ds)). split; [exact Hin|]. rewrite E. reflexivity. }
+      split; [exact Hu|exact (unsafe_refuted_gen d Hu)].
+  Qed.
+
+  Theorem safe_unless_listed_gen : forall d, In d ds -> ~ In d (unsafe_of tbl ds) -> safe tbl d.
+  Proof.
+    intros d Hin Hn. destruct (safe_or_refuted_gen d Hin) as [H|[H _]]; [exact H|contradiction].
+  Qed.
+End Partition.
+
+Section Groups.
+  Variable ds : list dispatcher.
+  Variable names : list (string * list string).
+  Hypothesis G : forallb (group_checked ds) names = true.
+
+  Theorem same_family_gen : forall g l, In g names -> resolve ds (snd g) = Some l ->
+    forall e d1 d2, In d1 l -> In d2 l ->
+    exists fam, famo (d_entry d1) (exec (d_entry d1) (d_code d1) e) = Some fam /\
+                famo (d_entry d2) (exec (d_entry d2) (d_code d2) e) = Some fam.
+  Proof.
+    intros g l Hg Hr. rewrite forallb_forall in G. specialize (G g Hg).
+    unfold group_checked in G. rewrite Hr in G. exact (group_ok_sound l G).
+  Qed.
+End Groups.
